@@ -5,6 +5,8 @@
 (* property is accepted and any grant that overlaps, leaves the ring or has the wrong size is    *)
 (* rejected.  Events: Reset(n) | Acquire(form,min,n,k,rc,off,cap) | Release(off,cap) | End.      *)
 (* k = number of FIFO releases that happened inside the acquire call (at its atomic accesses).   *)
+(* busy = 1: a release call counted by an earlier event was still running when this call began  *)
+(* (two-thread executions only), so the ring was not known to be idle.                          *)
 EXTENDS TraceCommon
 
 VARIABLES l, N, out
@@ -35,7 +37,7 @@ TAcquire ==
                ELSE Ev.min <= Ev.cap /\ Ev.cap <= Ev.n                       \* size exact / within [min, n]
             /\ Ev.len = 0
             /\ out' = Append(rest, b)
-       ELSE /\ ~(quiet /\ Ev.n <= N)                                         \* must succeed on an idle ring
+       ELSE /\ ~(quiet /\ Ev.busy = 0 /\ Ev.n <= N)                          \* must succeed on an idle ring
             /\ out' = rest
     /\ UNCHANGED N
 
